@@ -27,8 +27,14 @@ type evalState struct {
 	fn    *ssa.Function
 	vals  map[ssa.Value]interface{}
 	cells map[ssa.Value]interface{}
+	elems map[string]interface{} // element of a cell overwritten on its own: "cell/path" -> value
 	steps int
 }
+
+func elemKey(a evAddr) string { return fmt.Sprintf("%p/%v", a.cell, a.path) }
+
+// evalExtern, when set, gives the value of a call the evaluator does not follow (a standard library function).
+var evalExtern func(id string, args []interface{}) (interface{}, bool)
 
 func evConst(k *ssa.Const) (interface{}, bool) {
 	if k.Value == nil {
@@ -60,7 +66,7 @@ func evalPureWith(fn *ssa.Function, args []interface{}, depth int, oracle evalOr
 	if depth > 4 || len(fn.Blocks) == 0 || len(args) != len(fn.Params) {
 		return nil, "", fmt.Errorf("cannot evaluate %s", fn.Name())
 	}
-	st := &evalState{fn: fn, vals: map[ssa.Value]interface{}{}, cells: map[ssa.Value]interface{}{}}
+	st := &evalState{fn: fn, vals: map[ssa.Value]interface{}{}, cells: map[ssa.Value]interface{}{}, elems: map[string]interface{}{}}
 	for i, p := range fn.Params {
 		st.vals[p] = args[i]
 	}
@@ -91,9 +97,19 @@ func evalPureWith(fn *ssa.Function, args []interface{}, depth int, oracle evalOr
 			case *ssa.Alloc:
 				st.vals[x] = evAddr{cell: x}
 			case *ssa.Store:
-				if a, ok := st.vals[x.Addr].(evAddr); ok && len(a.path) == 0 {
+				if a, ok := st.vals[x.Addr].(evAddr); ok {
 					if v, ok := get(x.Val); ok {
-						st.cells[a.cell] = v
+						if len(a.path) == 0 {
+							st.cells[a.cell] = v
+							prefix := fmt.Sprintf("%p/", a.cell)
+							for k := range st.elems {
+								if len(k) >= len(prefix) && k[:len(prefix)] == prefix {
+									delete(st.elems, k)
+								}
+							}
+						} else {
+							st.elems[elemKey(a)] = v
+						}
 					}
 				}
 			case *ssa.IndexAddr:
@@ -118,7 +134,9 @@ func evalPureWith(fn *ssa.Function, args []interface{}, depth int, oracle evalOr
 				switch x.Op {
 				case token.MUL:
 					if a, ok := st.vals[x.X].(evAddr); ok {
-						if cv, ok := st.cells[a.cell]; ok {
+						if ev, ok := st.elems[elemKey(a)]; ok && len(a.path) > 0 {
+							st.vals[x] = ev
+						} else if cv, ok := st.cells[a.cell]; ok {
 							if s, isSym := cv.(evSym); isSym {
 								for _, k := range a.path {
 									s = evSym(fmt.Sprintf("%s[%d]", s, k))
@@ -218,13 +236,37 @@ func evalPureWith(fn *ssa.Function, args []interface{}, depth int, oracle evalOr
 						}
 					}
 				case evSym:
-					if rv, ok := r.(evSym); ok && oracle != nil {
-						if ans, ok := oracle(x.Op, lv, rv); ok {
-							st.vals[x] = ans
+					if rv, ok := r.(evSym); ok {
+						switch x.Op {
+						case token.ADD, token.SUB, token.MUL, token.QUO:
+							// arithmetic on opaque numbers stays opaque: a compound symbol
+							st.vals[x] = evSym("(" + string(lv) + x.Op.String() + string(rv) + ")")
+						default:
+							if oracle != nil {
+								if ans, ok := oracle(x.Op, lv, rv); ok {
+									st.vals[x] = ans
+								}
+							}
 						}
 					}
 				}
 			case *ssa.Call:
+				if callee := x.Call.StaticCallee(); callee != nil && !core.IsModPath(core.FuncPkgPath(callee)) && evalExtern != nil {
+					var cargs []interface{}
+					okArgs := true
+					for _, a := range x.Call.Args {
+						v, ok := get(a)
+						if !ok {
+							okArgs = false
+						}
+						cargs = append(cargs, v)
+					}
+					if okArgs {
+						if v, ok := evalExtern(core.StaticCalleeID(x), cargs); ok {
+							st.vals[x] = v
+						}
+					}
+				}
 				if callee := x.Call.StaticCallee(); callee != nil && len(callee.Blocks) > 0 && core.IsModPath(core.FuncPkgPath(callee)) {
 					var cargs []interface{}
 					okArgs := true
